@@ -118,6 +118,52 @@ def one_project(bindir, r, jobs, with_recordlike, with_fragments=False):
         pp.close()
 
 
+def special_cases(bindir, r):
+    """Two fixed shapes run by the real binaries (live output and replay):
+    (a) bytes: a line whose multi-byte character arrives in two writes, and a line with a byte that is not UTF-8;
+    (b) spellings: one target reached as `x` and, from a script in a subdirectory, as `../x`, at -j2."""
+    out = []
+    for shape in ("bytes", "spellings"):
+        pp = par.ParProject(bindir, {}, "c18s")
+        try:
+            env = dict(pp.pr.env)
+            for k in ("REDO_LOG", "REDO_PRETTY", "REDO_COLOR"):
+                env.pop(k, None)
+            if shape == "bytes":
+                open(os.path.join(pp.root, "all.do"), "w").write("echo 'L-all-0' >&2\nredo-ifchange x\necho 'L-all-1' >&2\n")
+                open(os.path.join(pp.root, "x.do"), "w").write(
+                    "printf 'L-x-caf\\303' >&2\nsleep %.2f\nprintf '\\251-end\\n' >&2\nprintf 'L-x-latin-\\351-byte\\n' >&2\necho 'L-x-last' >&2\n" % r.choice([0.3, 0.5]))
+                want = {"all": ["L-all-0", "L-all-1"], "x": ["L-x-caf\u00e9-end", "L-x-latin-\ufffd-byte", "L-x-last"]}
+                jobs = 1
+            else:
+                os.mkdir(os.path.join(pp.root, "sub"))
+                open(os.path.join(pp.root, "all.do"), "w").write("redo-ifchange x sub/y\n")
+                open(os.path.join(pp.root, "x.do"), "w").write("echo 'L-x-0' >&2\nsleep 1.2\necho 'L-x-1' >&2\n")
+                open(os.path.join(pp.root, "sub", "y.do"), "w").write("echo 'L-y-0' >&2\nsleep 0.3\nredo-ifchange ../x\necho 'L-y-1' >&2\n")
+                want = {"x": ["L-x-0", "L-x-1"], "sub/y": ["L-y-0", "L-y-1"]}
+                jobs = 2
+            p = subprocess.run(["redo", "--no-pretty", "--no-color", "--no-status", "-j%d" % jobs, "all"], cwd=pp.root, env=env,
+                               stdin=subprocess.DEVNULL, stdout=subprocess.PIPE, stderr=subprocess.PIPE, timeout=120, start_new_session=True)
+            live = p.stderr.decode(errors="replace") + p.stdout.decode(errors="replace")
+            q = subprocess.run(["redo-log", "-r", "--no-pretty", "--no-color", "--no-status", "all"], cwd=pp.root, env=env,
+                               stdin=subprocess.DEVNULL, stdout=subprocess.PIPE, stderr=subprocess.PIPE, timeout=120, start_new_session=True)
+            replay = q.stdout.decode(errors="replace")
+            for which, text, rc in (("live", live, p.returncode), ("replay", replay, q.returncode)):
+                attr, _ = attribute(text, list(want))
+                everything = [l.rstrip() for ls in attr.values() for l in ls if l.startswith("L-")]
+                for nm, lines in want.items():
+                    got = [l.rstrip() for l in attr.get(nm, []) if l.startswith("L-")]
+                    stray = [l for l in everything if l.startswith("L-%s-" % nm.split("/")[-1])]
+                    if got != lines or sorted(stray) != sorted(lines) or rc != 0:
+                        out.append({"oracle": "stderr lines once/in order/under the right target", "shape": shape, "stream": which, "target": nm,
+                                    "expected": lines, "under_its_target": got, "anywhere": stray, "exit": rc,
+                                    "tail": text[-300:]})
+                        break
+        finally:
+            pp.close()
+    return out
+
+
 def check(x):
     bad = []
     for which in ("live", "replay"):
@@ -163,4 +209,7 @@ def run(res, r, tier):
             else:
                 for b in bad[:2]:
                     viol.append({"oracle": "stderr lines once/in order/under the right target", "jobs": x["jobs"], "deps": x["deps"], "detail": b})
-    return {"evaluations": ev, "violations": viol, "known_hits": known, "samples": samples, "projects_with_a_line_in_3_to_5_fragments": nfrag}
+    sp = special_cases(bindir, r)
+    ev += 2
+    viol = sp[:2] + viol
+    return {"evaluations": ev, "violations": viol, "special_shapes": ["bytes (split multi-byte character, non-UTF-8 byte)", "spellings (x and ../x at -j2)"], "known_hits": known, "samples": samples, "projects_with_a_line_in_3_to_5_fragments": nfrag}
